@@ -357,6 +357,32 @@ nd::harnesses! {
         balanced();
     }
 
+    /// CSliceBox of plain data (no drop glue): the storage is still released, exactly once (decided by the leak check
+    /// of this group and by the allocator model's double-free check), empty and non-empty, typed and opaque.
+    #[kani::unwind(6)]
+    fn c06_cslicebox_plain_data() {
+        let n = nd::range(0, 3);
+        nd::cover!(n == 0, "empty boxed slice");
+        nd::cover!(n == 3, "three elements");
+        let opaque: bool = nd::any();
+        let wide: bool = nd::any();
+        if wide {
+            let mut v: Vec<u64> = Vec::with_capacity(3);
+            let mut i = 0;
+            while i < n { v.push(i as u64 ^ 0xABCD); i += 1; }
+            let sb: CSliceBox<u64> = CSliceBox::from(v.into_boxed_slice());
+            assert!(sb.len() == n && (n == 0 || sb[n - 1] == (n as u64 - 1) ^ 0xABCD));
+            if opaque { drop(sb.into_opaque()); }
+        } else {
+            let mut v: Vec<(u8, u8)> = Vec::with_capacity(3);
+            let mut i = 0;
+            while i < n { v.push((i as u8, 7)); i += 1; }
+            let sb: CSliceBox<(u8, u8)> = CSliceBox::from(v.into_boxed_slice());
+            assert!(sb.len() == n);
+            if opaque { drop(sb.into_opaque()); }
+        }
+    }
+
     /// Negative twin: claims a consuming call leaves the value alive.
     #[kani::unwind(4)]
     fn c06_negative_twin() {
